@@ -38,6 +38,30 @@ CHECKS = {
    text="Every output of every family under rotating/all option vectors is parsed against an IC10 signature table written for this project (cross-checked with webapp/src/ic10.json); placeholders and Python spellings are rejected; version-note line <= 90. E2 part: IC10Operand/format_int/version-note arithmetic on symbolic values.",
    note="Grammar table is the trusted base; scientific notation treated as unloadable.",
    technique="grammar-table loading of real outputs + symbolic execution of the formatter kernels with z3"),
+ "C12": dict(level="translation_validation", design="DESIGN.md 4 C12",
+   text="Seeded constexpr programs (bit-field, arithmetic, HASH, branch, chained bodies; call positions in main, expressions, arguments, function bodies, library modules): the real output is compared on the symbolic IC10 machine with the dialect interpreter, in which the decorated function is ordinary Python evaluation; no label/instruction may be owned by a decorated function; open/eval/exec bodies must be rejected.",
+   note="Only device inputs are solver-quantified; constexpr bodies, argument literals and call positions are enumerated. Child-process timeouts are retried, then inconclusive.",
+   technique="symbolic IC10 machine vs interpreter (z3 trace equivalence), concrete replay"),
+ "C13": dict(level="translation_validation", design="DESIGN.md 4 C13",
+   text="Multi-module programs (1-3 seeded library modules with equal global/function names, aliases, __main__ blocks, uncalled functions) are compared, IC10 vs IC10 on the symbolic machine, with the single file obtained mechanically by prefixing every library-level name; the multi-module output is also compared with the dialect interpreter.",
+   note="Module splits enumerated; inputs solver-quantified. Labels kept (label removal with equal names across modules is the C05 finding).",
+   technique="symbolic IC10-vs-IC10 and source-vs-IC10 trace equivalence with z3, concrete replay"),
+ "C15": dict(level="exploration", design="DESIGN.md 4 C15, 2.4", engine="E3",
+   text="The real compile_code (instrumented copy, Compiler stubbed) is executed on source strings whose blanks, junk, separators, '-'/'_' spellings and line-boundary look-alikes are symbolic characters over stated alphabets; every feasible path of the scanner is explored with z3 deciding branch feasibility, every string class is compared with a specification written from the property text, and mismatches are replayed on the real compile_code.",
+   note="Bounded: templates with <= 5 symbolic characters, lengths concrete; spellings on which the property text is silent are skipped. Trusted: SymStr string semantics, the specification.",
+   technique="symbolic execution of the real directive scanner over symbolic-character strings, z3 path feasibility, replay"),
+ "C16": dict(level="other", design="DESIGN.md 4 C16",
+   text="Closed obligations per table row discharged by z3 (bit-vector CRC-32 of each prefab name == stored hash; Distinct over each enum) and by direct comparison on the real objects (plural/singular, slot aliases, intrinsic wrappers called with sentinels). Exhaustive over all rows; there is no symbolic input.",
+   note="Instruction signatures (destination register or not) from the table of vf/ic10.py.",
+   technique="closed z3 bit-vector / Distinct obligations over every table row"),
+ "C17": dict(level="proof", design="DESIGN.md 4 C17", engine="E2",
+   text="The three statistics assignments of get_code are extracted from the AST and executed on an abstract text (L lines, T characters, R registers symbolic); z3 (LIA) proves num_lines == L, num_bytes == T + 2*max(L-1,0), num_registers == R for all L,T,R or returns the counterexample (L = 0). Every real output of the families is additionally recounted.",
+   note="Abstract text model: non-empty lines without line breaks joined by one newline.",
+   technique="symbolic execution of the real statistics statements into linear integer arithmetic, z3 validity"),
+ "C18": dict(level="model_checking", design="DESIGN.md 4 C18", engine="E2",
+   text="The real encode_data/decode_data statements run with base64/zlib/json replaced by contract stubs; the base64 text is a SymStr with symbolic alphabet characters; for each compressed length m (1..24 quick, 1..96 thorough) z3 proves that every emitted character is URL-safe and that the text reaching b64decode equals what b64encode produced; padding arithmetic proved for all m in LIA; concrete dictionaries replay the contracts.",
+   note="Library contracts are the trusted base (listed in evidence).",
+   technique="symbolic execution with contract stubs over symbolic base64 characters, z3 validity per length"),
 }
 NA = {
  "C10": "quantifies over arbitrary texts (C parser boundary), wall-clock time and OS child processes; no SMT-encodable assertion over the code within reach (DESIGN.md 5)",
